@@ -5,6 +5,20 @@ package ctlog
 
 //@ func ctlog.signTreeHead props C01 C11
 //@   defines ret1 == nil ==> isSignedFor(ret0, c, tree)
+//@   call ct.SerializeSTHSignatureInput requires [C11] signs-this-tree-head: c_sth.Version == 0 && (tree.N >= 0 ==> c_sth.TreeSize == tree.N) && (tree.Time >= 0 ==> c_sth.Timestamp == tree.Time) && c_sth.SHA256RootHash == tree.Hash
+//@   call ctlog.digitallySign requires [C11] signs-the-rfc6962-input-with-the-log-key: c_k == c.Key && c_msg == sthBytes
+//@   call sunlight.NewRFC6962InjectedSigner requires [C11] embeds-tree-head-timestamp-under-log-name-and-key: c_name == c.Name && c_key == publicOf(c.Key) && c_sig == treeHeadSignature && c_timestamp == tree.Time
+//@   call torchwood.NewCosignatureSigner requires [C11] cosigner-is-the-logs-witness-key: c_name == c.Name && c_key == iface(c.WitnessKey)
+//@   call rand.Shuffle invariant [C11] both-signers-stay: len(signers) == 2 && ((signers[0] == iface(rs) && signers[1] == iface(ws)) || (signers[0] == iface(ws) && signers[1] == iface(rs)))
+//@   call torchwood.Checkpoint.String requires [C11] text-is-this-tree: c_recv.Origin == c__1.Name && c_recv.N == tree.N && c_recv.Hash == tree.Hash && c_recv.Extension == ""
+//@   call torchwood.Checkpoint.String bind ckText0 = ret
+//@   call note.Sign requires [C11] signed-by-both-over-the-checkpoint-text: c_n.Text == ckText0 && len(c_signers) == 2 && ((c_signers[0] == iface(rs) && c_signers[1] == iface(ws)) || (c_signers[0] == iface(ws) && c_signers[1] == iface(rs)))
+//@   returns [C11] returns-the-signed-note: ret1 == nil ==> ret0 == signedNote
+
+//@ pure func tlsSig(sig bytes) bytes = byte1(4) + byte1(3) + u16(len(sig)) + sig
+//@ func ctlog.digitallySign props C02 C09 C11
+//@   call ecdsa.(*PrivateKey).Sign requires [C11] deterministic-rfc6979-over-sha256: c_recv == k && c_rand == nil && c_digest == sha256Of(msg) && typeof(c_opts) == typeid("crypto.Hash") && cast(c_opts, "crypto.Hash") == 5
+//@   ensures [C11] layout-and-determinism: ret1 == nil ==> ret0 == tlsSig(ecdsaDetSig(k, sha256Of(msg)))
 
 //@ pure func stagingKey(t tlog.Tree) string
 //@ func ctlog.stagingPath props C03 C04
